@@ -36,6 +36,11 @@ def run(ctx):
     r5_stateful_not_shared(ctx)
     r6_rechunk_by_current_row(ctx)
     r7_row_memo(ctx)
+    # re-encoding must not rewrite the old interaction (Repr compares new['actions'] with old['actions'] to decide whether to rebuild the rewards)
+    from . import c04
+    c04.r3_copy_before_mutate(ctx, rule="C10.R8", only={"EncodeCatRows"})
+    ctx.rules["C10.R8"] = ("EncodeCatRows (used by Repr/Finalize to re-encode actions) rewrites only objects created in the call: nested rows are copied before they are "
+                           "rewritten, so the old interaction still holds the old actions when Repr decides whether the rewards must be rebuilt")
 
 
 CORE = "coba/environments/core.py"
@@ -279,6 +284,27 @@ def r1_targets_follow(ctx, writers):
                        detail={"rebuilt_targets": sorted(covered), "actions_value": unparse(st.value)[:100]}, stmt=f"{t} after: " + norm_stmt(st, 110))
 
 
+def positional_shortcuts(ctx, writers):
+    """DiscreteReward(<new actions>, <old reward object>.rewards) pairs rewards with actions by position: sound only where the old reward
+    object lists exactly the old action list, in the same order."""
+    from ..util import all_guards
+    n = 0
+    for c, fn, stores in writers:
+        for cc in ast.walk(fn):
+            if isinstance(cc, ast.Call) and call_name(cc) == "DiscreteReward" and len(cc.args) == 2 and isinstance(cc.args[1], ast.Attribute) and cc.args[1].attr == "rewards":
+                n += 1
+                owner = unparse(cc.args[1].value)
+                ok = False
+                for t, pol in all_guards(cc, fn):
+                    if pol and isinstance(t, ast.Compare) and len(t.ops) == 1 and isinstance(t.ops[0], ast.Eq):
+                        sides = {unparse(t.left), unparse(t.comparators[0])}
+                        if f"{owner}.actions" in sides and any(s_.endswith("['actions']") for s_ in sides - {f"{owner}.actions"}):
+                            ok = True
+                ctx.ob("C10.R1", c.rel, f"{c.name}.filter", cc, "rewards taken over by position come from a reward object that lists exactly the old actions in the old order "
+                       "(guard `<reward>.actions == <old>['actions']`)", ok, stmt="positional rewards shortcut")
+    return n
+
+
 def _is_old_actions(A, fn, X, store):
     """does expression A denote the actions BEFORE `X['actions'] = ...` (statement `store`) took effect?"""
     txt = unparse(A)
@@ -339,6 +365,7 @@ def _covered_targets(fn, X, actions_store):
 
 
 def r2_action_follows(ctx, writers):
+    positional_shortcuts(ctx, writers)
     ctx.rule("C10.R2", "the filter that transforms `actions` applies the same transformer to the logged `action`")
     ctx.rule("C10.R3", "the transformer applied to `action` is parameterised like the one applied to `actions`")
     for c, fn, stores in writers:
@@ -362,6 +389,17 @@ def r2_action_follows(ctx, writers):
                 same = bool({n for n, _ in tra} & names)
                 ctx.ob("C10.R2", c.rel, qual, a, "action goes through the same transformer as actions", same,
                        detail={"actions": sorted(names), "action": sorted(n for n, _ in tra)})
+                # the switches (self.<flag>) under which `action` is re-represented are those under which `actions` is
+                def flags(node):
+                    out = set()
+                    for t, pol in guards_of(node, fn):
+                        for x in ast.walk(t):
+                            if is_self_attr(x):
+                                out.add((x.attr, pol))
+                    return out
+                fa, fs = flags(a), flags(st)
+                ctx.ob("C10.R3", c.rel, qual, a, "the logged action is re-represented under the same switches (self.<flag>) as the action set", fa == fs,
+                       detail={"actions under": sorted(fs), "action under": sorted(fa)}, stmt="switches of action: " + norm_stmt(a, 90))
                 if same:
                     by_name = {}
                     for n, args in tr:
@@ -407,6 +445,9 @@ def r4_finalize(ctx):
 
 
 CONTROLS = [
+    ("DiscreteReward rewards taken over by position unconditionally", EF, M.replace_expr("Repr.filter", "isinstance(old[target], DiscreteReward) and old[target].actions == old['actions']", "isinstance(old[target], DiscreteReward)"), "C10.R1"),
+    ("Densify re-represents the logged action under the context switch", EF, M.replace_expr("Densify.filter", "self._action and 'action' in new", "self._context and 'action' in new"), "C10.R3"),
+    ("catset rewrites the nested action in place", "coba/pipes/rows.py", M.replace_expr("EncodeCatRows._encode_collection", "list(row) if isinstance(row, tuple) else copy(row)", "list(row) if isinstance(row, tuple) else row", nth=0), "C10.R8"),
     ("Environments.dense shares one Densify", CORE, M.replace_expr("Environments.dense", "Environments([Pipes.join(env, make_dense()) for env in self._envs])", "self.filter(make_dense())"), "C10.R5"),
     ("Repr cuts by the first row's length", EF, M.replace_expr("Repr.filter", "islice(actionitr, len(row))", "islice(actionitr, len(first['actions']))"), "C10.R6"),
     ("Repr memo keyed by the first action only", EF, M.replace_expr("Repr.filter", "row != prev_row", "prev_row is None or row[0] != prev_row[0]"), "C10.R7"),
